@@ -57,10 +57,12 @@ std::map<IndexCombination4,std::vector<ComplexType> > TwoParticleGFContainer::co
 std::map<IndexCombination4,std::vector<ComplexType> > TwoParticleGFContainer::computeAll_nosplit(bool clearTerms, std::vector<boost::tuple<ComplexType, ComplexType, ComplexType> > const& freqs, const boost::mpi::communicator & comm)
 {
     std::map<IndexCombination4,std::vector<ComplexType> > out;
-    for(std::map<IndexCombination4,ElementWithPermFreq<TwoParticleGF> >::iterator iter = ElementsMap.begin();
-        iter != ElementsMap.end(); iter++) {
+    // iterate over the stored elements only: an alias key shares its element with the key it was created for,
+    // and the table of that element must not be returned under the alias key
+    for(std::map<IndexCombination4, boost::shared_ptr<TwoParticleGF> >::iterator iter = NonTrivialElements.begin();
+        iter != NonTrivialElements.end(); iter++) {
         INFO("Computing 2PGF for " << iter->first);
-        out.insert(std::make_pair(iter->first, static_cast<TwoParticleGF&>(iter->second).compute(clearTerms, freqs, comm)));
+        out.insert(std::make_pair(iter->first, static_cast<TwoParticleGF&>(*(iter->second)).compute(clearTerms, freqs, comm)));
         };
     return out;
 }
